@@ -148,7 +148,7 @@ MUST_RECOGNISE = ("binop", "binop-scalar", "binop-same", "where", "math", "reduc
 
 MUTATIONS = ("permute-subscript", "offset-subscript", "reverse-subscript", "constant-subscript",
              "extra-operand", "redn-lower-bound-1", "redn-upper-bound-minus-1", "rename-binding",
-             "swap-operands-of-subscripts", "wrap-in-neg")
+             "swap-operands-of-subscripts", "wrap-in-neg", "duplicate-index", "extra-reduction-variable")
 
 
 def _map_children(e, f):
@@ -274,6 +274,23 @@ def mutate(il, kind):  # noqa: C901
             if b0.shape == b1.shape and b0.dtype == b1.dtype and s0.index_tuple != s1.index_tuple:
                 tmp = replace_node(e, s0, p.Subscript(s1.aggregate, s0.index_tuple))
                 out.append(("aggregates swapped", replace_node(tmp, s1, p.Subscript(s0.aggregate, s1.index_tuple)), None))
+    elif kind == "duplicate-index":
+        # one index variable used on two axes: x[_0, _0] (a diagonal), sum_r x[r, r] (a trace)
+        for s in subs:
+            idx = s.index_tuple
+            shp = il.bindings[s.aggregate.name].shape
+            for i, j in itertools.permutations(range(len(idx)), 2):
+                if idx[i] != idx[j] and isinstance(idx[j], p.Variable) and shp[i] == shp[j]:
+                    new = list(idx)
+                    new[i] = idx[j]
+                    out.append((f"{s} axis {i} -> {idx[j]}", replace_node(e, s, p.Subscript(s.aggregate, tuple(new))), None))
+    elif kind == "extra-reduction-variable":
+        # a reduction over one more variable than the operand is indexed with: every term is counted twice
+        if isinstance(e, Reduce):
+            from constantdict import constantdict
+            nb = dict(e.bounds)
+            nb["_r9"] = (0, 2)
+            out.append(("unused reduction variable _r9 in [0,2)", Reduce(e.inner_expr, e.op, constantdict(nb)), None))
     elif kind == "wrap-in-neg":
         if il.dtype.kind in "fic" and not isinstance(e, Reduce):
             out.append(("negated", p.Product((-1, e)), None))
